@@ -161,6 +161,17 @@ func (o *supplyOracle) Leg(c *explore.Ctx, leg *world.Leg) {
 				fmt.Sprintf("balance changes %s, expected %s", spec.FmtDelta(got, uni.Name), spec.FmtDelta(want, uni.Name)))
 		}
 	}
+	// the transfer functions move tokens, they never make or destroy any: the per-key total over
+	// all accounts and undelivered messages is the same before and after (title: "supply changes
+	// only by the stated amount")
+	if world.TransferFuncs[leg.Func] && leg.Pre != leg.Post && !leg.Duplicate {
+		if got := spec.Delta(spec.Supply(leg.Pre), spec.Supply(leg.Post)); len(got) != 0 {
+			c.Report(p, "supply", fmt.Sprintf("%s:%s", leg.Func, sideOf(leg)),
+				fmt.Sprintf("%s changed the total of balances + undelivered transfers by %s", leg.Func, fmtSup(got)))
+		} else {
+			c.Class("supply-kept:" + leg.Func + ":" + sideOf(leg))
+		}
+	}
 	// overdraft: whatever is taken must be held (running sum per key for repeated entries)
 	taken := map[string]*big.Int{}
 	for k, v := range want {
